@@ -40,8 +40,8 @@ BOUND = ["Comp", "Foo", "a", "b", "foo", "fn", "slots", "NS", "KeepAlive", "_Fra
 UNBOUND = ["U", "y", "g", "h", "props", "Bar", "x-el", "zed", "undefined"]
 PROLOGUE = ("import Comp from './c'; import * as NS from './n'; import { KeepAlive, Fragment as _Fragment } from 'vue';\n"
             "let a, b, foo, val, arg; const slots = {}; function fn() {}\nclass Foo {}\n")
-HTML = ["div", "span", "input", "select", "textarea", "p", "a", "button"]
-SVG = ["svg", "circle", "path"]
+HTML = ["div", "span", "input", "select", "textarea", "p", "a", "button", "h1", "li", "video"]
+SVG = ["svg", "circle", "path", "linearGradient", "clipPath", "foreignObject", "feBlend", "textPath", "font-face"]
 TEXT_ALPHA = [" ", " ", "\t", "\n", "\r\n", "\r", " ", " ", "　", "\x0b", "x", "y", "Z", "&nbsp;", "&amp;", "&#8195;", "é"]
 ATTR_TEXT = [" ", "\t", "\n", "a", "b", "-", " ", "c d", "\\", "\\u", "\r", "  \n"]
 PATTERNS = ["^x-", "^my-", "^Foo$", "-el$", "^U$"]
@@ -730,7 +730,9 @@ ATOM_TYPES = ["string", "number", "boolean", "object", "bigint", "symbol", "null
               "(Date | null) | NonNullable<number | null>",
               "I0['a']", "J1['a']", "J1['b']", "J1['zz']", "I0[number]", "J1['a' | 'b']",
               # indexed accesses the resolver cannot see through: nested, on a `typeof`, on an array's property
-              "Obj1['k']['size']", "Obj1['k']['n']['length']", "(typeof SIZES)[number]", "string[]['length']"]
+              "Obj1['k']['size']", "Obj1['k']['n']['length']", "(typeof SIZES)[number]", "string[]['length']",
+              # indexed accesses that select a method signature (a function value)
+              "Obj0['m']", "Obj0['m' | 'j']", "I2m['onSave']", "I2m['onSave' | 'label']"]
 OBJ = {"object", "array", "date", "map", "set", "weakmap", "promise", "regexp", "error"}
 # JavaScript value kinds a type can have; "ANY" = anything; None = outside the property's grammar
 ATOM_KINDS = {
@@ -752,6 +754,8 @@ ATOM_KINDS = {
     "J1['a' | 'b']": {"number"},
     "Obj1['k']['size']": {"string"}, "Obj1['k']['n']['length']": {"number"}, "(typeof SIZES)[number]": {"string"},
     "string[]['length']": {"number"},
+    "Obj0['m']": {"function"}, "Obj0['m' | 'j']": {"function", "number"}, "I2m['onSave']": {"function"},
+    "I2m['onSave' | 'label']": {"function", "string"},
     "Extract<string | string[], string | object>": {"string", "array"}, "Extract<Date | number, object>": {"date"},
     "Extract<number | Map<string, number>, object | number>": {"number", "map"},
     "Exclude<string | string[], number>": {"string", "array"}, "NonNullable<string[] | null>": {"array"},
@@ -771,7 +775,8 @@ def kinds_union(a, b):
 
 TYPE_PRELUDE = ("class Foo {}\nfunction fn(a: number, b: string) {}\ntype T0 = string | number;\ninterface I0 { a: 1; (): void }\ninterface J1 extends I0 { b: 2 }\n"
                 "type Arr0 = boolean[];\ntype Tup0 = [string, number];\ntype Obj0 = { k: Date; j: number; m(): void; [x: string]: any };\n"
-                "type Obj1 = { k: { size: 'sm' | 'lg'; n: number[] } };\nconst SIZES = ['sm', 'md'] as const;\n")
+                "type Obj1 = { k: { size: 'sm' | 'lg'; n: number[] } };\nconst SIZES = ['sm', 'md'] as const;\n"
+                "interface I2m { onSave(payload: string): void; onCancel(): void; label: string }\n")
 PROP_KEYS = ["foo", "bar", "'baz-q'", "qux", "msg", "'onUpdate:x'", "count", "1", "'label'", "'size'"]
 
 
@@ -859,7 +864,7 @@ class TGen(Gen):
         """a type expression denoting exactly the prop map M"""
         r = self.r
         ops = ["lit"] if d <= 0 else ["lit", "alias", "iface", "extends", "extends_alias", "merge", "merge_extends", "inter", "paren", "partial", "partial", "required", "required",
-                                      "pick", "pick", "omit", "omit", "inter_omit", "index", "chain"]
+                                      "pick", "pick", "omit", "omit", "inter_omit", "union_dup", "index", "chain"]
         op = r.pick(ops)
         force = getattr(self, "force_op", None)
         if force and d > 0:
@@ -871,6 +876,8 @@ class TGen(Gen):
         if op == "required" and not (M and all(not m[1] for m in M)):
             op = "lit"
         if op == "inter_omit" and not M:
+            op = "lit"
+        if op == "union_dup" and len([m for m in M if m[1] and m[3] == "prop"]) < 2:
             op = "lit"
         if op in ("pick", "omit", "inter_omit") and any(m[0].isdigit() for m in M):
             op = "lit"                    # `'1'` is not a key of `{ 1: … }` in TypeScript
@@ -935,6 +942,14 @@ class TGen(Gen):
             return "Pick<%s, %s>" % (self.enc(M + extra, d - 1), keys)
         if op == "omit":
             return "Omit<%s, 'zextra' | 'z-other'>" % self.enc(M + extra, d - 1)
+        if op == "union_dup":
+            # a discriminated union: each of two optional props is required in one operand and
+            # `?: never` in the other, so neither is required of the whole
+            opt = [m for m in M if m[1] and m[3] == "prop"][:2]
+            rest = [m for m in M if m not in opt]
+            (k1, _, t1, *_a), (k2, _, t2, *_b) = opt
+            u = "({ %s: %s; %s?: never } | { %s: %s; %s?: never })" % (k1, t1, k2, k2, t2, k1)
+            return u if not rest else self.enc(rest, d - 1) + " & " + u
         if op == "inter_omit":
             # a key declared by the operand to the LEFT of an Omit<> that omits the same key from
             # another type: the left declaration stands
@@ -959,7 +974,7 @@ class TGen(Gen):
         keys = list(PROP_KEYS)
         M = []
         focus = getattr(self, "focus_ops", False)
-        if focus:
+        if focus or getattr(self, "focus_dup", False):
             n = 2 + r.below(3)
         for j in range(n):
             k = keys.pop(r.below(len(keys)))
@@ -976,6 +991,9 @@ class TGen(Gen):
                                  ("number | Function | string", {"function", "number", "string"})])
                 tg = set()
             opt = r.chance(1, 2) if kind != "getter" else False
+            if getattr(self, "focus_dup", False):
+                kind = "prop"
+                opt = j < 2 or r.chance(1, 2)
             if focus:
                 # Partial<> needs an all-optional map, Required<> an all-required one
                 opt = (self.force_op == "partial") if kind != "getter" else False
@@ -1092,7 +1110,7 @@ class TGen(Gen):
         if form == 3:
             items.append("...dflt"); self.default_info["form"] = "dynamic"
         if form == 4:
-            items.append("[dyn]: 1"); self.default_info["form"] = "dynamic"
+            items.append(r.pick(["[dyn]: 1", "[`pre${dyn}`]: 1", "[`${dyn}`]: 2"])); self.default_info["form"] = "dynamic"
         return " = { " + ", ".join(items) + " }"
 
     def options_arg(self):
@@ -1114,6 +1132,12 @@ class TGen(Gen):
                 # Vue's defineComponent is imported under another name; the binding CALLED defineComponent is not Vue's
                 "alias+other": "import { defineComponent as defineVueComponent, SetupContext } from 'vue'; import { defineComponent } from './framework';",
                 "alias+local": "import { defineComponent as defineVueComponent, SetupContext } from 'vue'; function defineComponent(...a: any[]) { return a }"}[prov]
+        if prov == "named" and r.chance(1, 3):
+            # the same bindings spread over several import declarations from 'vue'
+            head = r.pick(["import { defineComponent } from 'vue'; import type { SetupContext } from 'vue';",
+                           "import { defineComponent } from 'vue'; import { ref, SetupContext } from 'vue';",
+                           "import type { SetupContext } from 'vue'; import { defineComponent } from 'vue'; import { toRef } from 'vue';"])
+            self.f("imports:split")
         callee = {"aliased": "dc", "namespace": "Vue.defineComponent"}.get(prov, "defineComponent")
         M = self.prop_map()
         pty = self.enc(M, 1 + r.below(3))
@@ -1181,6 +1205,10 @@ def gen_types_cases(seed, n, start_id=0):
         g = TGen(Rng(seed * 7368787 + i))
         if i % 6 == 4:
             g.focus_defaults = True
+        if i % 12 == 3:
+            # a key declared by several operands: a discriminated union, an Omit<> beside a redeclaration
+            g.focus_dup = True
+            g.force_op = g.r.pick(["union_dup", "inter_omit"])
         if i % 6 == 5:
             # every sixth module: a utility type over a map that contains a method signature
             g.focus_ops = True
